@@ -12,7 +12,7 @@ from .common import hexf, unhex
 
 class RunCase:
     def __init__(self, directed, assort, init, K, recs, L, lt="u", wt="u", r=1, maxit=10, nconv=10, seed=1,
-                 prior=0.0, tr=0, script=(), aff=None, vshape=0):
+                 prior=0.0, tr=0, script=(), aff=None, vshape=0, lprior=0):
         self.__dict__.update(locals())
         del self.__dict__["self"]
         if aff is None:
@@ -21,7 +21,7 @@ class RunCase:
     def line(self, cid):
         return gen.case_run(cid, self.directed, self.assort, self.init, self.K, self.lt, self.recs, self.L,
                             self.wt, self.r, self.maxit, self.nconv, self.seed, self.prior, self.tr,
-                            self.script, self.aff, self.vshape)
+                            self.script, self.aff, self.vshape, self.lprior)
 
     def net(self):
         return ref.PyNet(self.recs, self.L, self.directed, real=(self.wt == "r"))
@@ -34,7 +34,7 @@ class RunCase:
     def describe(self):
         return {"variant": self.variant(), "K": self.K, "L": self.L, "records": self.recs, "label_type": self.lt,
                 "weight_type": self.wt, "r": self.r, "max_it": self.maxit, "n_conv": self.nconv, "seed": self.seed,
-                "prior_fill": self.prior, "prior_v_shape": self.vshape, "affinity": self.aff, "script": list(self.script)}
+                "prior_fill": self.prior, "prior_v_shape": self.vshape, "prior_labels": self.lprior, "affinity": self.aff, "script": list(self.script)}
 
 
 def random_run(rng, tr=0, variants=None, **over):
@@ -177,6 +177,10 @@ class C02(Check):
                 run_transition_check(self, "sweep-differs-from-published-update", rc, net, c2, u, v, w, nu, nv, nw)
         # (c) realistic size: the repository's own golden inputs (N=300, thousands of records) through model and code
         self.golden()
+        # (d) the update is a function of the network handed to THIS run: a Solver object that has run on another network
+        # before (often a rewiring: same vertices, layers and number of edges) must end where a fresh one ends
+        from .props_b import solver_reuse_stage
+        solver_reuse_stage(self, "update-with-reused-solver")
         self.cov["rule"] = ("random multigraphs (N 2-7, L 1-3, K 2-4; parallel records, weights 0/1/2/>2 and real, self-loops, "
                             "source-/sink-only vertices) x all variants; arbitrary states (values around 1e-6, zero rows/columns) "
                             "and transitions of real trajectories; a case is non-trivial if at least one entry changed in the sweep; "
